@@ -58,6 +58,20 @@ def run(ctx):
         ok = isinstance(r.action, TT) or (isinstance(r.action, Marker) and r.action is T.marker)
         ctx.ob('R1.3', key, loc, f'row #{r.index} action {r.action_src} is a token type or PROCESS_AS_KEYWORD', ok,
                f'action {r.action_src} folds to {r.action!r}: the scan loop consumes such a match without yielding it')
+    # "a character that no rule recognises becomes a one-character Error token ... never merged away": a table row may
+    # produce Error tokens too, and then the same bound applies to it
+    ctx.rule('R1.10', 'a table row whose action is an Error type matches exactly one character (Error tokens are never merged)', floor=1)
+    nerr = [r for r in T.lex if isinstance(r.action, TT) and r.action[:1] == ('Error',)]
+    ctx.ob('R1.10', 'inventory', kwloc, f'{len(T.lex)} rows examined, {len(nerr)} produce an Error type', True)
+    for r in T.lex:
+        if isinstance(r.action, TT) and r.action[:1] == ('Error',):
+            try:
+                hi = r.tree.getwidth()[1]
+            except re.error:
+                continue
+            ctx.ob('R1.10', f'row:{r.pattern}', f'{kwloc}:{r.line}', f'row #{r.index} {r.pattern!r} -> {r.action_src} matches at most one character',
+                   hi <= 1, f'the rule can match {hi if hi < 2**31 else "arbitrarily many"} characters: a run of unrecognised characters '
+                   f'(and whatever else the class contains, e.g. a line break after a control character) becomes one Error token')
     ctx.info['min_width_histogram'] = {str(k): widths.count(k) for k in sorted(set(widths))}
     check_scan_loop(ctx, T)
     check_is_keyword(ctx)
